@@ -89,6 +89,24 @@ def plan(prop, tier):
         P = dict(base, jobs=jobs, nontrivial_key="c13_cases_with_alt", states_key="c13_cases",
                  rule="every parse of the space under a tracking parse_alloc/parse_free pair (blocks never recycled within a case): pairing, epoch, at-most-once, reachability inside live blocks, tree unchanged after yaep_free_grammar, yaep_free_tree frees all and calls termcb once per TERM",
                  bounds={"max_input_length": 4}, require={"c13_cases": 10000})
+    elif prop == "C10":
+        jobs = [Job("def", "c", ["def"] + ([] if q else ["--thorough"]), NPROC), Job("def-asan", "c-asan", ["def", "--sample", "97"], NPROC)]
+        P = dict(base, jobs=jobs, states_key="definitions", transitions_key="definitions", nontrivial_key="nontrivial_rejections",
+                 rule="product of terminal lists (<= 2 terminals over names {a,b,error,$S,$eof} x codes {-1,0,1,300}) x rule lists (0 rules; 1 rule from the full menu lhs{S,A,a,error,$S} x rhs over {a,b,S,A,error,$eof} of length <= 2 x 17 translation/abstract-node/cost forms; 2 rules from reduced menus) x strict{0,1}; oracle: reference well-formedness WF = set of documented defects present; rc = 0 iff WF empty, rc in WF otherwise; then error code/message, parse refuses, a good definition afterwards behaves as on a fresh object; distinct_nontrivial = rejected descriptions",
+                 bounds={"terminals": 2, "rules": 2, "rhs_length": 2, "quick_reduces_pair_menus": q},
+                 require={"definitions": 100000, "accepted": 1000, "rejected": 1000, "rc_LOOP_NONTERM": 10, "rc_UNACCESSIBLE_NONTERM": 10, "rc_REPEATED_SYMBOL_NUMBER": 10})
+    elif prop in ("C14", "C15"):
+        if q:
+            args = ["hist", "--slots", "2", "--full", "5", "--bfs", "6", "--props", prop]
+            dl = 240
+        else:
+            args = ["hist", "--slots", "3", "--full", "6", "--bfs", "9", "--props", prop]
+            dl = 2400
+        jobs = [Job("hist", "c", args, 1), Job("hist-asan", "c-asan", ["hist", "--slots", "2", "--full", "4", "--bfs", "4" if q else "5", "--props", prop], 1)]
+        P = dict(base, jobs=jobs, states_key="states", transitions_key="transitions", nontrivial_key="states", deadline_s=dl,
+                 rule="all histories of API operations {create, free, define(4 pool grammars: good by text, good by callbacks with error rule and sparse codes, syntax-error text, loop grammar), 5 setters, parse(sentence, non-sentence, undeclared token, second sentence), free_tree} over <= 2 (thorough 3) live objects: layer 1 = every history up to the full depth, no deduplication; layer 2 = BFS with deduplication on model state + file-scope-state fingerprint + live library blocks; every history runs in a pristine forked process; oracle per call = same call on a fresh object in a fresh process with the same definition and settings + contract model (codes, error state, previous values, leak-free when nothing is live); for C15 additionally all setter argument sequences of length <= 3 over {INT_MIN,-1,0,1,2,3,INT_MAX} and token validation over 7 code layouts x every code around/inside the declared range x 3 positions; distinct_nontrivial = distinct deduplicated states",
+                 bounds={"slots": 2 if q else 3, "full_depth": 5 if q else 6, "bfs_depth_target": 6 if q else 9, "note": "BFS depth actually completed is in counters.bfs_depth_completed; deadline-bounded"},
+                 require={"transitions": 5000, "states": 200})
     elif prop == "C19":
         jobs = []
         keys, cap, osd, vd = (4, 23, 8, 9) if q else (6, 47, 11, 13)
@@ -97,8 +115,9 @@ def plan(prop, tier):
                 jobs.append(Job("%s-ht%d" % (b, h), b, ["cont", "--what", "ht", "--hashfn", str(h), "--keys", str(keys), "--sizecap", str(cap)], 1))
             jobs.append(Job(b + "-os", b, ["cont", "--what", "os", "--depth", str(osd)], 1))
             jobs.append(Job(b + "-vlo", b, ["cont", "--what", "vlo", "--depth", str(vd)], 1))
+            jobs.append(Job(b + "-vlo-inplace", b, ["cont", "--what", "vlo", "--depth", str(vd), "--realloc", "1"], 1))
         P = dict(base, jobs=jobs, states_key="states", transitions_key="transitions", nontrivial_key="states",
-                 rule="explicit-state BFS over operation histories of the real containers (C and C++), state = canonical layout (hash table: size, raw counters, every slot EMPTY/DELETED/key; object stack: room, top offset, segments, top length; VLO: length, capacity), each state reached by replaying its history on a fresh object; hash table explored to a fixpoint under a slot cap with 4 hash functions (constant, identity, mod 2, *7), object stack / VLO to a depth with segment length 16 / default length 4; oracle: std::set / byte-string model after every operation, ASan on",
+                 rule="explicit-state BFS over operation histories of the real containers (C and C++), state = canonical layout (hash table: size, raw counters, every slot EMPTY/DELETED/key; object stack: room, top offset, segments, top length; VLO: length, capacity), each state reached by replaying its history on a fresh object; the allocator under the containers is the harness' (tracks block sizes; realloc either always moves or shrinks in place - both explored for the VLO); hash table explored to a fixpoint under a slot cap with 4 hash functions (constant, identity, mod 2, *7), object stack / VLO to a depth with segment length 16 / default length 4; oracle: std::set / byte-string model after every operation, ASan on",
                  bounds={"hash_table": {"keys": keys, "slot_cap": cap, "hash_functions": 4}, "object_stack_depth": osd, "vlo_depth": vd, "bindings": ["c", "cxx"]},
                  require={"states": 1000, "transitions": 10000})
     else:
